@@ -444,11 +444,38 @@ func forwardTaint(fn *ssa.Function, src ssa.Value) map[ssa.Value]bool {
 				changed = true
 			}
 		}
+		// blocks whose execution is decided by a tainted condition
+		ctl := map[*ssa.BasicBlock]bool{}
+		for _, b := range fn.Blocks {
+			ifi, ok := b.Instrs[len(b.Instrs)-1].(*ssa.If)
+			if !ok || !t[ifi.Cond] || b.Succs[0] == b.Succs[1] {
+				continue
+			}
+			for _, x := range fn.Blocks {
+				if an.EdgeDominates(b, b.Succs[0], x) || an.EdgeDominates(b, b.Succs[1], x) {
+					ctl[x] = true
+				}
+			}
+		}
 		an.Instrs(fn, func(in ssa.Instruction) {
 			anyOp := false
 			for _, op := range in.Operands(nil) {
 				if *op != nil && (t[*op] || t[baseOf(*op)]) {
 					anyOp = true
+				}
+			}
+			if ctl[in.Block()] {
+				switch in.(type) {
+				case *ssa.Store, ssa.CallInstruction:
+					anyOp = true
+				}
+			}
+			if phi, ok := in.(*ssa.Phi); ok {
+				// a phi at the join of a tainted branch
+				for _, p := range phi.Block().Preds {
+					if ctl[p] {
+						anyOp = true
+					}
 				}
 			}
 			if !anyOp {
